@@ -7,6 +7,7 @@ version, names, AC abilities, AC status, timer status, zone status; every other 
 changes nothing and sends nothing; AT5: an echoed names / zone-status request addressed to the client
 (to-address 0xB0) counts as an empty answer (docs/design.md "Support for systems without zones").
 """
+from pyvc.values import unmodelled as _unmodelled  # noqa: E402
 from pyvc import aio, sym
 from pyvc.sym import And, Or, Not, Implies, ite
 from pyvc.vc import oset
@@ -60,7 +61,7 @@ class Hb:
                     aio.suspend(it2, ("heartbeat." + name,))
                 return aio.Awaitable("heartbeat." + name, run)
             return Builtin("heartbeat." + name, call)
-        raise it.exc("AttributeError", name)
+        raise _unmodelled(self, name)
 
 
 class Env:
@@ -633,7 +634,7 @@ def _dispatch(h, g):
                             aio.suspend(it2, ("update",))
                         return aio.Awaitable(method, run)
                     return Builtin(method, call)
-                raise it.exc("AttributeError", name)
+                raise _unmodelled(self, name)
 
         def record(i, ident):
             return Instance(h.get("pyairtouch.comms:UnsupportedMessage"), {idf: ident, "error_info": "ER", "label": f"r{i}"})
@@ -734,7 +735,7 @@ def _dispatch_any(h, g):
                         aio.suspend(it2, ("update",))
                     return aio.Awaitable(method, run)
                 return Builtin(method, call)
-            raise it.exc("AttributeError", name)
+            raise _unmodelled(self, name)
 
     d = h.attr(E.at, target_attr)
     keys = h.choice("known_entities", [[], [0], [0, 2], [1, 3, 15]])
